@@ -856,6 +856,29 @@ class Interp:
         return tuple(self._ev_elts(node.elts, st))
 
     def ev_List(self, node, st):
+        if any(isinstance(e, ast.Starred) for e in node.elts):
+            # [a, *xs, b] where some starred part has symbolic length: the concatenation
+            parts, symbolic = [], False
+            for e in node.elts:
+                if isinstance(e, ast.Starred):
+                    v = self.ev(e.value, st)
+                    items = self.lib.iter_values(self, st, v, e)
+                    if isinstance(items, SymList):
+                        symbolic = True
+                    elif not isinstance(items, list):
+                        raise Outside("starred symbolic-length value", e)
+                    parts.append(("many", items))
+                else:
+                    parts.append(("one", self.ev(e, st)))
+            if symbolic:
+                return self.lib.symlist_concat(self, st, parts, node)
+            out = []
+            for kind, v in parts:
+                if kind == "one":
+                    out.append(v)
+                else:
+                    out.extend(v)
+            return out
         return list(self._ev_elts(node.elts, st))
 
     def _ev_elts(self, elts, st):
